@@ -37,13 +37,15 @@ func (y CheckWhen) check(s *Selection, m meta.Meta) (bool, error) {
 		return true, nil
 	}
 	if hw, ok := m.(meta.HasWhen); ok {
-		if hw.When() != nil {
-			xp, err := xpath.Parse(hw.When().Expression())
+		// every condition of the chain (the node's own, its uses', its augment's) has to hold
+		for w := hw.When(); w != nil; w = w.Also() {
+			xp, err := xpath.Parse(w.Expression())
 			if err != nil {
 				return false, err
 			}
-			proceed, err := s.XPredicate(xp)
-			return proceed, err
+			if proceed, err := s.XPredicate(xp); !proceed || err != nil {
+				return proceed, err
+			}
 		}
 	}
 	return true, nil
